@@ -2773,6 +2773,15 @@ pub fn run_inner(
                 op,
                 format!("{} exceeded {} transport calls / environment steps (last: {})", op, calls, w.0),
             );
+            let nconn = shb.oracle.conns.len();
+            if nconn > 1 {
+                shb.oracle.flag(
+                    "C12",
+                    "R3-not-usable",
+                    &format!("{}-never-returns-on-a-later-connection", op),
+                    format!("on connection {} {} exceeded {} transport calls / environment steps (last: {}): the session is not usable", nconn - 1, op, calls, w.0),
+                );
+            }
             shb.oracle.flag(
                 "C07",
                 "unbounded-loop",
